@@ -1,8 +1,174 @@
-//! C17 observations (see props/c17.py for the consumer).
+//! C17 observations: a structured + malformed configuration stream through serde / try_as_spdc / SPDC::from_json under
+//! catch_unwind (outcome class, message, panic location, finiteness of every derived field), the shadow construction
+//! that answers the oracles of the Coq model through the public API, and finiteness of spectrum / rate / HOM calls on
+//! successfully constructed setups.  Consumer: props/c17.py.
 #![allow(unused_imports, dead_code)]
+use crate::c16::cfgc::*;
 use crate::common::*;
-use serde_json::json;
+use serde_json::{json, Value};
+use spdcalc::dim::ucum::{HZ, M, RAD, S};
+use spdcalc::math::Integrator;
+use spdcalc::utils::Steps;
+use spdcalc::*;
 
-pub fn run(_args: &[String]) {
-  emit(json!({"kind": "not_implemented", "property": "C17"}));
+pub fn observe_config(id: usize, mal: usize, tags: Vec<String>, j: Value, with_calls: bool) -> Value {
+  let text = serde_json::to_string(&j).unwrap_or_default();
+  let parsed = guarded_loc(|| serde_json::from_value::<SPDCConfig>(j.clone()));
+  let cfg = match parsed {
+    Ok(Ok(c)) => c,
+    Ok(Err(e)) => {
+      return json!({"kind": "cfg", "id": id, "mal": mal, "tags": tags, "json": j, "parse": "err", "parse_msg": e.to_string()});
+    }
+    Err((m, l)) => {
+      return json!({"kind": "cfg", "id": id, "mal": mal, "tags": tags, "json": j, "parse": "panic", "parse_msg": m, "loc": l});
+    }
+  };
+  let sh = shadow(&cfg);
+  let real = outcome(|| cfg.clone().try_as_spdc());
+  let (nonfinite, setup) = match &real.3 {
+    Some(s) => (spdc_all_finite(s), spdc_json(s)),
+    None => (vec![], Value::Null),
+  };
+  // the JSON entry point (serde try_from): must agree with try_as_spdc
+  let fj = guarded_loc(|| SPDC::from_json(&text));
+  let from_json = match &fj {
+    Ok(Ok(s)) => json!({"class": "ok", "same": real.3.as_ref().map(|r| spdc_json(r) == spdc_json(s)).unwrap_or(false)}),
+    Ok(Err(e)) => json!({"class": "err", "msg": e.to_string().chars().take(200).collect::<String>()}),
+    Err((m, l)) => json!({"class": "panic", "msg": m, "loc": l}),
+  };
+  let mut calls = Value::Null;
+  if with_calls {
+    if let Some(s) = &real.3 {
+      if nonfinite.is_empty() {
+        calls = finite_calls(s);
+      }
+    }
+  }
+  json!({
+    "kind": "cfg", "id": id, "mal": mal, "tags": tags, "json": j, "parse": "ok", "cfg": cfg_json(&cfg),
+    "shadow": sh, "real": {"class": real.0, "msg": real.1, "loc": real.2, "setup": setup, "nonfinite": nonfinite},
+    "from_json": from_json, "calls": calls,
+  })
+}
+
+/// spectrum / rate / HOM calls on a small grid around the centre, inside the transmission window
+pub fn finite_calls(s: &SPDC) -> Value {
+  let integ = Integrator::Simpson { divs: 6 };
+  let win = s.crystal_setup.crystal.get_meta().transmission_range;
+  let r = guarded_loc(|| {
+    let ws0 = s.signal.frequency();
+    let wi0 = s.idler.frequency();
+    // +-0.2 % around the centres
+    let d = 0.002;
+    let fs = FrequencySpace::new((ws0 * (1. - d), ws0 * (1. + d), 3), (wi0 * (1. - d), wi0 * (1. + d), 3));
+    let inside = match win {
+      Some(w) => {
+        let l = |w_: Frequency| *(utils::frequency_to_vacuum_wavelength(w_) / M);
+        [ws0 * (1. - d), ws0 * (1. + d), wi0 * (1. - d), wi0 * (1. + d)].iter().all(|f| { let x = l(*f); x >= w.0 && x <= w.1 })
+      }
+      None => true,
+    };
+    let sp = s.joint_spectrum(integ);
+    let jsa = sp.jsa_range(fs);
+    let jsi = sp.jsi_range(fs);
+    let jss = sp.jsi_singles_range(fs);
+    let jsn = sp.jsi_normalized_range(fs);
+    let cc = *(s.counts_coincidences(fs, integ) / HZ);
+    let cs = *(s.counts_singles_signal(fs, integ) / HZ);
+    let ci = *(s.counts_singles_idler(fs, integ) / HZ);
+    let hom = s.hom_rate_series(Steps(-1e-12 * S, 1e-12 * S, 3), fs, integ);
+    let mut bad: Vec<&str> = vec![];
+    if jsa.iter().any(|z| !z.re.is_finite() || !z.im.is_finite()) { bad.push("jsa"); }
+    if jsi.iter().any(|z| !z.value_unsafe.is_finite()) { bad.push("jsi"); }
+    if jss.iter().any(|z| !z.value_unsafe.is_finite()) { bad.push("jsi_singles"); }
+    if !cc.is_finite() { bad.push("counts_coincidences"); }
+    if !cs.is_finite() { bad.push("counts_singles_signal"); }
+    if !ci.is_finite() { bad.push("counts_singles_idler"); }
+    if hom.iter().any(|z| !z.is_finite()) { bad.push("hom_rate_series"); }
+    let bad_norm = jsn.iter().any(|z| !z.is_finite());
+    json!({"class": "ok", "inside_window": inside, "nonfinite": bad, "normalized_nonfinite": bad_norm,
+           "cc": fx(cc), "cs": fx(cs), "ci": fx(ci)})
+  });
+  match r {
+    Ok(v) => v,
+    Err((m, l)) => json!({"class": "panic", "msg": m, "loc": l}),
+  }
+}
+
+/// the classes of the malformed / boundary stream, by weight
+pub fn mal_class(k: usize) -> usize {
+  const W: [usize; 20] = [0, 0, 0, 0, 0, 0, 1, 1, 1, 1, 2, 2, 3, 3, 4, 4, 5, 6, 6, 7];
+  W[k % W.len()]
+}
+
+pub fn run(args: &[String]) {
+  install_hook();
+  if args.first().map(|s| s.as_str()) == Some("replay") {
+    // one configuration (JSON) on stdin
+    let mut text = String::new();
+    use std::io::Read;
+    let _ = std::io::stdin().read_to_string(&mut text);
+    emit(json!({"kind": "units", "u": units_json()}));
+    match serde_json::from_str::<Value>(&text) {
+      Ok(j) => emit(observe_config(0, 999, vec!["replay".into()], j, true)),
+      Err(e) => emit(json!({"kind": "error", "msg": e.to_string()})),
+    }
+    return;
+  }
+  let seed = arg_u64(args, 0, 1);
+  let n = arg_u64(args, 1, 100) as usize;
+  let ncalls = arg_u64(args, 2, 10) as usize;
+  let mut rng = Rng::new(seed);
+  emit(json!({"kind": "units", "u": units_json()}));
+  // fixed corpus: lambda_s <= lambda_p in every auto/explicit combination (DESIGN F7), NaN-cost searches, zero period
+  let mut id = 0usize;
+  for (name, j) in corpus() {
+    emit(observe_config(id, 100, vec![name.to_string()], j, false));
+    id += 1;
+  }
+  let mut calls_done = 0usize;
+  for k in 0..n {
+    let mal = mal_class(k);
+    let mut tags = vec![];
+    let j = gen_config(&mut rng, mal, &mut tags);
+    let with_calls = mal == 0 && calls_done < ncalls;
+    let o = observe_config(id, mal, tags, j, with_calls);
+    if !o["calls"].is_null() {
+      calls_done += 1;
+    }
+    emit(o);
+    id += 1;
+  }
+}
+
+pub fn corpus() -> Vec<(&'static str, Value)> {
+  let base = |ls: f64, lp: f64, theta: Value, pp: Value, idler: Value, sig_theta: f64| {
+    json!({
+      "crystal": {"kind": "KTP", "pm_type": "e->eo", "phi_deg": 0, "theta_deg": theta, "length_um": 2000, "temperature_c": 20},
+      "pump": {"wavelength_nm": lp, "waist_um": 100, "bandwidth_nm": 5.35, "average_power_mw": 1},
+      "signal": {"wavelength_nm": ls, "phi_deg": 0, "theta_deg": sig_theta, "waist_um": 100, "waist_position_um": "auto"},
+      "idler": idler, "periodic_poling": pp, "deff_pm_per_volt": 7.6
+    })
+  };
+  let idl = json!({"wavelength_nm": 1550, "phi_deg": 180, "theta_deg": 0, "waist_um": 100});
+  let ppa = json!({"poling_period_um": "auto"});
+  let ppe = json!({"poling_period_um": 46.5});
+  vec![
+    ("valid_reference", base(1550., 775., json!(90), ppa.clone(), json!("auto"), 0.)),
+    ("ls_lt_lp:theta_explicit:pp_off:idler_auto", base(700., 775., json!(90), Value::Null, json!("auto"), 0.)),
+    ("ls_lt_lp:theta_explicit:pp_off:idler_explicit", base(700., 775., json!(90), Value::Null, idl.clone(), 0.)),
+    ("ls_lt_lp:theta_auto:pp_off:idler_auto", base(700., 775., json!("auto"), Value::Null, json!("auto"), 0.)),
+    ("ls_lt_lp:theta_auto:pp_off:idler_explicit", base(700., 775., json!("auto"), Value::Null, idl.clone(), 0.)),
+    ("ls_lt_lp:theta_explicit:pp_auto:idler_auto", base(700., 775., json!(90), ppa.clone(), json!("auto"), 0.)),
+    ("ls_lt_lp:theta_explicit:pp_auto:idler_explicit", base(700., 775., json!(90), ppa.clone(), idl.clone(), 0.)),
+    ("ls_lt_lp:theta_explicit:pp_explicit:idler_auto", base(700., 775., json!(90), ppe.clone(), json!("auto"), 0.)),
+    ("ls_lt_lp:theta_explicit:pp_explicit:idler_explicit", base(700., 775., json!(90), ppe.clone(), idl.clone(), 0.)),
+    ("ls_eq_lp:theta_auto:pp_off:idler_auto", base(775., 775., json!("auto"), Value::Null, json!("auto"), 0.)),
+    ("ls_eq_lp:theta_explicit:pp_off:idler_auto", base(775., 775., json!(90), Value::Null, json!("auto"), 0.)),
+    ("nan_cost:signal_80deg:theta_auto", base(1550., 775., json!("auto"), Value::Null, json!("auto"), 80.)),
+    ("nan_cost:signal_400deg:theta_auto", base(1550., 775., json!("auto"), Value::Null, json!("auto"), 400.)),
+    ("signal_80deg:pp_auto", base(1550., 775., json!(90), ppa.clone(), json!("auto"), 80.)),
+    ("zero_period", base(1550., 775., json!(90), json!({"poling_period_um": 0.0}), json!("auto"), 0.)),
+    ("auto_theta_with_poling", base(1550., 775., json!("auto"), ppe.clone(), json!("auto"), 0.)),
+  ]
 }
